@@ -161,8 +161,13 @@ def ob_export(W, Ks, cross, single):
         import speckit.analysis as A
         from symx.shim import clone, NumpyShim
         rec = _PdRecorder()
-        fn = clone(A.SpectrumResult.to_dataframe, np=NumpyShim(), pd=rec)
-        fn(r)
+        _g = next(v.__globals__ for v in vars(type(r)).values() if hasattr(v, "__globals__"))
+        _old = _g.get("pd")
+        _g["pd"] = rec
+        try:
+            r.to_dataframe()
+        finally:
+            _g["pd"] = _old
         cols = rec.cols
         ok1d = all(isinstance(v, rnp.ndarray) and v.ndim == 1 and v.shape[0] == nf for v in cols.values())
         bad = [k for k, v in cols.items() if not (isinstance(v, rnp.ndarray) and v.ndim == 1 and v.shape[0] == nf)]
